@@ -4,6 +4,7 @@ import (
 	"bytes"
 	"fmt"
 
+	"github.com/btcsuite/btcd/blockchain"
 	"github.com/btcsuite/btcd/database"
 
 	"verif/harness/memdb"
@@ -79,6 +80,48 @@ func (s *Sim) crashEnumerate() {
 		node.db.Close()
 	}
 	r.Sig(fmt.Sprintf("crashK:%d", min(K/20, 10)))
+}
+
+// CloneCompare opens a FRESH chain instance (empty UTXO cache) on a clone of
+// the database, without disturbing the live node: after a required flush the
+// persisted set must equal the in-memory view (C03); without a flush the fresh
+// instance must replay from the consistency marker to the tip (the no-fault end
+// of C04).
+func (s *Sim) CloneCompare(flushFirst bool) {
+	r := s.r
+	ms, ok := s.n.store.(*memStore)
+	if !ok {
+		return
+	}
+	tip := s.n.Tip()
+	if flushFirst {
+		if err := s.n.Chain.FlushUtxoCache(blockchain.FlushRequired); err != nil {
+			r.Violate("C03", "flush", "", "FlushUtxoCache(FlushRequired): %v", err)
+		}
+	}
+	img := ms.DB.Clone()
+	node := NewNode(r, s.w, NodeCfg{UtxoCacheMax: s.n.cfg.UtxoCacheMax}, &fixedStore{img})
+	node.Time = s.n.Time
+	if err := node.Open(); err != nil {
+		r.Violate("C04", "reopen-succeeds", "", "opening a fresh instance on a clone of the live database (flushed=%v): %v", flushFirst, err)
+	}
+	defer node.db.Close()
+	if node.Tip() != tip {
+		r.Violate("C03", "persisted-equals-in-memory", "", "fresh instance on a clone of the database is at %v, live node at %v", node.Tip(), tip)
+	}
+	if m := node.CompareUtxo(node.Chain, tip); m != "" {
+		r.Violate("C03", "persisted-equals-in-memory", "", "fresh instance on a clone (flushed=%v) at tip %v: %s", flushFirst, tip, m)
+	}
+	if m := node.CompareJournal(node.Chain, tip, nil); m != "" {
+		r.Violate("C03", "persisted-equals-in-memory", "", "fresh instance on a clone (flushed=%v): %s", flushFirst, m)
+	}
+	r.Event("clone-compare", "flushed=%v tip=%v", flushFirst, tip)
+	r.Sig("clone")
+	if flushFirst {
+		r.Probe("clone-compare-after-flush")
+	} else {
+		r.Probe("clone-compare-unflushed")
+	}
 }
 
 // lastAnnouncedAt returns the last tip announced with at most n commits done.
